@@ -134,6 +134,9 @@ Print Assumptions VacLive.C10_fuel_irrelevant_inst.
 Print Assumptions VacLive.C11_ok_means_not_fired_inst.
 Print Assumptions VacLive.C11_fired_is_io_inst.
 Print Assumptions VacLive.C11_corruption_means_not_fired_inst.
+Print Assumptions VacLive.C11_absorbed_computed.
+Print Assumptions VacLive.C11_fired_is_io_fails_absorbed.
+Print Assumptions VacLive.C11_absorbed_eof_only_first_read_inst.
 Print Assumptions VacLive2.C13_no_trace_inst.
 Print Assumptions VacLive2.C13_zero_bytes_inst.
 Print Assumptions VacLive2.C13_shapes_complete_inst.
@@ -247,7 +250,10 @@ Print Assumptions VacCrc.production_params.
              C09_general, C09_damage_exists VacStream; C09_open_one_damaged, C09_open_damaged VacFiles;
              C09_replay_tolerates_lost_entry, C09_deletion_replay_some VacLive (DeletionSim dx examples)
    PropC10   VacLive.C10_{open_terminates,fuel_bound,fuel_irrelevant,result_wellformed}_inst
-   PropC11   VacLive.C11_{ok_means_not_fired,corruption_means_not_fired,fired_is_io}_inst
+   PropC11   VacLive.C11_{ok_means_not_fired,corruption_means_not_fired,fired_is_io}_inst (plans
+             reportable: plan_{far,hit}_reportable); the excluded plans (site Read, kind
+             UnexpectedEof): VacLive.C11_absorbed_computed, C11_fired_is_io_fails_absorbed,
+             C11_absorbed_first_read_computed, C11_absorbed_eof_only_first_read_inst
    PropC12   C12_batch_decodes_whole, C12_multi_parse_sound, C12_append_entry_roundtrip,
              C12_damaged_entry_dropped_whole VacStream; C12_apply_all_or_nothing VacLive;
              C12_open_damaged VacFiles; C12_torn_entry_all_or_nothing, C12_open_torn: VACUOUS
